@@ -687,7 +687,7 @@ class Node:
             else:
                 pass
                 # raise NotImplementedError("Cross-tree adding")
-            if data_id and data_id != source_node._data_id:
+            if data_id is not None and data_id != source_node._data_id:
                 raise UniqueConstraintError(f"data_id conflict: {source_node}")
 
             # If creating an inherited node, use the parent class as constructor
